@@ -97,17 +97,38 @@ STRING_EDITS = [
 ]
 
 
-def neighbours(prog, only=None):
-    res = [r for r in _neighbours(prog) if M.render(r[1]) != M.render(r[2])]
+def fixed_programs():
+    """programs (with inputs) that contain every kind of literal the neighbour generators work on: walked exhaustively by the
+    fixed parts of the checks that push neighbours through recompile() (random picks alone made detection seed-dependent)"""
+    I, L, S = M.ident, M.lit_int, M.lit_str
+    p1 = M.program("exp", M.if_([(M.cmp_(I("a"), "==", L("2134")), M.ret([(S("aa"), "3"), (S("bb"), "1"), (S("cc"), "1")])),
+                                 (M.cmp_(I("b"), "in", M.tup([L("10001"), L("10002")])), M.ret([(L("1"), "1"), (M.lit_float("2.0"), "1")])),
+                                 (M.cmp_(I("c"), "!=", I("viewer")), M.ret([(S("x y"), "1"), (S("z"), "1")]))],
+                                M.ret([(S("e"), "1"), (S("f"), "1")])), salt="s 1", splitters=["uid"])
+    envs1 = []
+    for j, (a, b, c, v) in enumerate([(2134, 0, "k", "k"), ("2134", 0, "k", "k"), (2134.0, 0, "k", "k"), (0, 10001, "k", "k"), (0, "10001", "k", "k"),
+                                      (0, 10002.0, "k", "k"), (0, 0, "viewer", "k"), (0, 0, "k", "viewer"), (0, 0, "viewer", "viewer"), (0, 0, "k", "k"),
+                                      (2134, 10001, "a", "b"), (1, 2, "c", "c")]):
+        envs1.append({"a": a, "b": b, "c": c, "viewer": v, "uid": "u%d" % j})
+    p2 = M.program("exp", M.ret([(S("control"), "1"), (S("treatment"), "1"), (S("holdout"), "2")]), salt="salt", splitters=["uid", "plan"])
+    envs2 = [{"uid": "u%d" % j, "plan": ["pro", "free", 1, None][j % 4]} for j in range(12)]
+    p3 = M.program("exp", M.if_([(M.cmp_(I("country"), "==", S("US")), M.ret([(L("0"), "1"), (L("1"), "1")]))],
+                                M.ret([(M.lit_float("0.5"), "1"), (M.lit_float("1.0"), "1")])), salt=None, splitters=["uid"])
+    envs3 = [{"uid": "u%d" % j, "country": ["US", "us", "U S", "FR"][j % 4]} for j in range(12)]
+    return [(p1, envs1), (p2, envs2), (p3, envs3)]
+
+
+def neighbours(prog, only=None, limit=3):
+    res = [r for r in _neighbours(prog, limit) if M.render(r[1]) != M.render(r[2])]
     if only:
         res = [r for r in res if any(o in r[0] for o in only)]
     return res
 
 
-def _neighbours(prog):
+def _neighbours(prog, limit=3):
     res = []
     # ---- string literals (labels, operands) and the salt
-    for i, lit in enumerate(_str_lits(prog)[:3]):
+    for i, lit in enumerate(_str_lits(prog)[:limit]):
         for what, f in STRING_EDITS:
             a, b = copy.deepcopy(prog), copy.deepcopy(prog)
             sa, sb = f(lit["v"])
@@ -131,7 +152,7 @@ def _neighbours(prog):
             b["salt"] = {"v": sb, "q": _q(sb)}
             res.append((what + " (salt)", a, b))
     # ---- numeric literals that are == but differ in type / sign of zero / spelling
-    for i, lit in enumerate(_num_lits(prog)[:3]):
+    for i, lit in enumerate(_num_lits(prog)[:limit]):
         a, b = copy.deepcopy(prog), copy.deepcopy(prog)
         lb = _num_lits(b)[i]
         if lit["t"] == "int":
@@ -142,7 +163,7 @@ def _neighbours(prog):
                 lb["t"], lb["src"] = "int", str(int(float(lit["src"])))
                 res.append(("float literal vs the ==-equal int literal (#%d)" % i, a, b))
     # ---- a numeric literal vs the string literal with the same spelling (2134 vs "2134")
-    for i, lit in enumerate(_num_lits(prog)[:3]):
+    for i, lit in enumerate(_num_lits(prog)[:limit]):
         if lit["neg"]:
             continue
         a, b = copy.deepcopy(prog), copy.deepcopy(prog)
